@@ -19,6 +19,9 @@ Definition widx (P : list dom) : Prop :=
   sdoms P /\ (forall i d, znth P i = Some d -> wdom d).
 
 Definition allst (P : list dom) : list Z := flat_map d_data P.
+Arguments allst : simpl never.
+Arguments cnt_lt : simpl never.
+Arguments zmem : simpl never.
 
 Lemma zlen_app {A} (a b : list A) : zlen (a ++ b) = zlen a + zlen b.
 Proof. unfold zlen. rewrite app_length. lia. Qed.
@@ -149,7 +152,7 @@ Qed.
 End Split.
 
 (* the domain containing a point, as a split of the list *)
-Lemma widx_find P i d : znth P i = Some d -> exists pre rest, P = pre ++ d :: rest /\ zlen pre = i.
+Lemma widx_find (P : list dom) i d : znth P i = Some d -> exists pre rest, P = pre ++ d :: rest /\ zlen pre = i.
 Proof.
   intros H. pose proof (znth_Some _ _ _ H) as Hr. unfold znth in H.
   destruct (i <? 0) eqn:E; [discriminate|]. apply nth_error_split in H as (pre & rest & -> & Hl).
@@ -174,11 +177,11 @@ Qed.
 
 (* seeking a stamp that lies inside domain d0 = P[|pre|] *)
 Lemma seek_ge_inside P pre d0 rest b cur0 ts :
-  widx P -> P = pre ++ d0 :: rest -> dom_s d0 <= ts < dom_e d0 -> overlaps (d_tr d0) b = true ->
+  sdoms P -> P = pre ++ d0 :: rest -> dom_s d0 <= ts < dom_e d0 -> overlaps (d_tr d0) b = true ->
   di_seek_ge P (DI b 0 cur0 false) ts = (DI b (zlen pre) d0 true, true).
 Proof.
   intros Hw HP Hin Ho. unfold di_seek_ge, search_ge. simpl di_b.
-  rewrite (upoint_hit P ts (zlen pre) d0 (proj1 Hw)); [|rewrite HP; apply znth_mid|exact Hin].
+  rewrite (upoint_hit P ts (zlen pre) d0 Hw); [|rewrite HP; apply znth_mid|exact Hin].
   rewrite (di_reload_at P b (zlen pre) _ d0); [rewrite Ho; reflexivity|rewrite HP; apply znth_mid|].
   pose proof (zlen_nonneg pre). lia.
 Qed.
@@ -187,7 +190,8 @@ Qed.
    or nowhere *)
 Lemma seek_ge_outside P b cur0 ts it :
   widx P -> (forall i d, znth P i = Some d -> ~ (dom_s d <= ts < dom_e d)) ->
-  di_seek_ge P (DI b 0 cur0 false) ts = (it, true) -> ts < t_s (di_tr it).
+  di_seek_ge P (DI b 0 cur0 false) ts = (it, true) ->
+  ts < t_s (di_tr it) /\ overlaps (di_tr it) b = true /\ exists i, znth P i = Some (di_cur it).
 Proof.
   intros Hw Hno. unfold di_seek_ge, search_ge. simpl di_b.
   pose proof (usearch_point P ts (proj1 Hw)) as Hu.
@@ -197,8 +201,8 @@ Proof.
     destruct (j =? zlen P) eqn:E; [apply Z.eqb_eq in E; lia|].
     destruct (znth P (j + 1)) as [d|] eqn:Ed.
     + rewrite (di_reload_at P b (j + 1) _ d Ed ltac:(lia)).
-      destruct (overlaps (d_tr d) b); intros [= <-]; [|discriminate].
-      unfold di_tr. simpl. apply (Hafter (j + 1) d Ed). lia.
+      destruct (overlaps (d_tr d) b) eqn:Eo; [|discriminate]. intros [= <-].
+      unfold di_tr. simpl. split; [apply (Hafter (j + 1) d Ed); lia|]. split; [exact Eo|eauto].
     + rewrite di_reload_none by exact Ed. discriminate.
 Qed.
 
@@ -233,11 +237,17 @@ Lemma zlen_snoc {A} (pre : list A) x : zlen (pre ++ [x]) = zlen pre + 1.
 Proof. rewrite zlen_app. reflexivity. Qed.
 
 (* the effective-domain walk keeps the iterator's bounds and the start of the range *)
+Lemma di_reload_bounds P it : di_b (fst (di_reload P it)) = di_b it.
+Proof.
+  unfold di_reload. destruct (di_pos it =? -1); [reflexivity|].
+  destruct (znth P (di_pos it)); [|reflexivity]. destruct (overlaps _ _); reflexivity.
+Qed.
+
 Lemma di_next_bounds P it : di_b (fst (di_next P it)) = di_b it.
 Proof.
   unfold di_next. destruct (negb (di_valid it)); [reflexivity|].
-  unfold di_reload. simpl. destruct (_ =? -1); [reflexivity|].
-  destruct (znth P _); [|reflexivity]. destruct (overlaps _ _); reflexivity.
+  pose proof (di_reload_bounds P (DI (di_b it) (di_pos it + 1) (di_cur it) (di_valid it))) as H.
+  destruct (di_reload P _) as [it' ok]. simpl in H. destruct ok; simpl; exact H.
 Qed.
 
 Lemma fwd_eff_go_start fuel P it b n :
@@ -257,6 +267,13 @@ Lemma fwd_eff_start P it :
   t_s (snd (fst (fwd_eff P it))) = t_s (di_tr it) /\ di_b (fst (fst (fwd_eff P it))) = di_b it.
 Proof. unfold fwd_eff. apply fwd_eff_go_start. Qed.
 
+Lemma seek_ge_result_bounds P it ts r ok : di_seek_ge P it ts = (r, ok) -> di_b r = di_b it.
+Proof.
+  unfold di_seek_ge. intros H.
+  pose proof (di_reload_bounds P (DI (di_b it) (search_ge P ts) (di_cur it) true)) as Hr.
+  rewrite H in Hr. exact Hr.
+Qed.
+
 (* a seek looks only at the bounds of the iterator it is applied to *)
 Lemma di_seek_ge_bounds P it it' ts :
   di_b it = di_b it' -> fst (di_seek_ge P it ts) = fst (di_seek_ge P it' ts) \/
@@ -273,4 +290,467 @@ Proof.
   intros Hb. unfold di_seek_ge. rewrite Hb. unfold di_reload. simpl.
   destruct (_ =? -1); [discriminate|].
   destruct (znth P _); [|discriminate]. destruct (overlaps _ _); [auto|discriminate].
+Qed.
+
+(* ------------------------------------------------------------------ Distance *)
+(* the traversal loop of Distance as a recursion over the domains after the current one *)
+Fixpoint dloop (B eff : tr) (te : Z) (rest : list dom) (s2f : approx) (tot : Z) (se : bool)
+  : res dapprox :=
+  match rest with
+  | [] => Err EDisc
+  | d :: r =>
+      if negb (overlaps (d_tr d) B) || negb (contains_range eff (d_tr d)) then Err EDisc
+      else if contains_stamp (d_tr d) te || (te =? dom_e d) then
+        do e <- isearch te (d_data d);
+        Ok (DA (a_lo s2f + tot + a_lo e) (a_hi s2f + tot + a_hi e) se (a_exact e))
+      else dloop B eff te r s2f (tot + dlen d) se
+  end.
+
+Lemma dist_loop_eq B eff s2f se : forall rest pre cur fuel tot,
+  (length rest < fuel)%nat ->
+  dist_loop false fuel (pre ++ cur :: rest) (DI B (zlen pre) cur true) B eff true s2f tot se =
+  dloop B eff (t_e B) rest s2f tot se.
+Proof.
+  induction rest as [|d1 r IH]; intros pre cur fuel tot Hf; (destruct fuel as [|f]; [lia|]); simpl.
+  - rewrite (di_next_last (pre ++ [cur]) pre cur B eq_refl). reflexivity.
+  - rewrite (di_next_some (pre ++ cur :: d1 :: r) pre cur d1 r B eq_refl).
+    destruct (overlaps (d_tr d1) B); simpl; [|reflexivity].
+    unfold di_tr at 1. simpl di_cur.
+    destruct (contains_range eff (d_tr d1)); simpl; [|reflexivity].
+    unfold di_tr, dom_e. simpl di_cur.
+    destruct (contains_stamp (d_tr d1) (t_e B) || (t_e B =? t_e (d_tr d1))); [reflexivity|].
+    rewrite (app_cons_assoc pre cur (d1 :: r)), <- (zlen_snoc pre cur).
+    apply IH. simpl in Hf. lia.
+Qed.
+
+Lemma a_exact_result ts l : a_exact (isearch_result ts l) = zmem ts l.
+Proof.
+  unfold isearch_result, a_exact. destruct (zmem ts l); simpl; [apply Z.eqb_refl|].
+  apply Z.eqb_neq. lia.
+Qed.
+
+Lemma isearch_result_hi ts l : a_hi (isearch_result ts l) = cnt_lt ts l.
+Proof. unfold isearch_result. destruct (zmem ts l); reflexivity. Qed.
+
+Lemma isearch_result_lo ts l :
+  a_lo (isearch_result ts l) = cnt_lt ts l - (if zmem ts l then 0 else 1).
+Proof. unfold isearch_result. destruct (zmem ts l); simpl; lia. Qed.
+
+Lemma widx_cons_inv d r : widx (d :: r) -> wdom d /\ dom_s d < dom_e d /\ widx r /\
+  (forall x, In x (allst r) -> dom_e d <= x) /\ (forall x, In x (d_data d) -> dom_s d <= x < dom_e d).
+Proof.
+  intros H. pose proof (split_d0 (d :: r) [] r d eq_refl H) as [A B].
+  split; [exact A|]. split; [exact B|]. split; [apply (split_rest_widx (d :: r) [] r d eq_refl H)|].
+  split; [apply (split_rest_stamps (d :: r) [] r d eq_refl H)|apply (split_d0_stamps (d :: r) [] r d eq_refl H)].
+Qed.
+
+Lemma allst_cons d r : allst (d :: r) = d_data d ++ allst r.
+Proof. reflexivity. Qed.
+
+(* what the loop returns when it succeeds *)
+Lemma dloop_ok ds te eff s2f se : ds < te -> forall rest tot a,
+  widx rest -> dloop (TR ds te) eff te rest s2f tot se = Ok a ->
+  da_hi a = a_hi s2f + tot + cnt_lt te (allst rest) /\
+  da_lo a = a_lo s2f + tot + cnt_lt te (allst rest) - (if da_ee a then 0 else 1) /\
+  da_se a = se.
+Proof.
+  intros Hlt. induction rest as [|d r IH]; intros tot a Hw; simpl; [discriminate|].
+  destruct (widx_cons_inv d r Hw) as ([Hinc _] & Hne & Hr & Hafter & Hin).
+  destruct (overlaps (d_tr d) (TR ds te)) eqn:Eo; simpl; [|discriminate].
+  destruct (contains_range eff (d_tr d)); simpl; [|discriminate].
+  rewrite overlaps_nonempty in Eo by (simpl; assumption). simpl in Eo. apply Z.ltb_lt in Eo.
+  unfold dom_s, dom_e in *.
+  rewrite allst_cons, cnt_lt_app.
+  destruct (contains_stamp (d_tr d) te || (te =? t_e (d_tr d))) eqn:Ec.
+  - rewrite (isearch_spec te _ Hinc). simpl. intros [= <-]. simpl.
+    rewrite a_exact_result, isearch_result_hi, isearch_result_lo.
+    assert (Hz : cnt_lt te (allst r) = 0).
+    { apply cnt_lt_none. intros y Hy. pose proof (Hafter y Hy).
+      apply orb_true_iff in Ec as [Ec|Ec].
+      - unfold contains_stamp in Ec. apply andb_true_iff in Ec as [_ Ec]. apply Z.ltb_lt in Ec. lia.
+      - apply Z.eqb_eq in Ec. lia. }
+    rewrite Hz. repeat split; lia.
+  - apply orb_false_iff in Ec as [Ec1 Ec2]. apply Z.eqb_neq in Ec2.
+    unfold contains_stamp in Ec1. apply andb_false_iff in Ec1.
+    assert (Hgt : t_e (d_tr d) < te).
+    { destruct Ec1 as [Ec1|Ec1]; [apply Z.leb_gt in Ec1; lia|apply Z.ltb_ge in Ec1; lia]. }
+    intros Ha. destruct (IH (tot + dlen d) a Hr Ha) as (A & B & C).
+    assert (Hall : cnt_lt te (d_data d) = dlen d).
+    { apply cnt_lt_all. intros y Hy. pose proof (Hin y Hy). lia. }
+    rewrite Hall. repeat split; try lia; exact C.
+Qed.
+
+Lemma overlaps_inside (t : tr) ds te :
+  t_s t < t_e t -> t_s t <= ds < t_e t -> ds < te -> overlaps t (TR ds te) = true.
+Proof.
+  intros Hne Hin Hlt. rewrite overlaps_nonempty by (simpl; lia). simpl. apply Z.ltb_lt. lia.
+Qed.
+
+(* Distance over a range starting inside domain d0 *)
+Local Opaque dist_loop.
+Lemma distance_unfold P pre d0 rest ds te :
+  widx P -> P = pre ++ d0 :: rest -> dom_s d0 <= ds < dom_e d0 -> ds < te ->
+  exists eff, t_s eff = dom_s d0 /\
+  distance P (TR ds te) true =
+    if negb (contains_range eff (TR ds te)) then Err EDisc else
+    let s := isearch_result ds (d_data d0) in
+    if contains_stamp (d_tr d0) te || (te =? dom_e d0) then
+      let e := isearch_result te (d_data d0) in
+      Ok (DA (a_lo e - a_hi s) (a_hi e - a_lo s) (a_exact s) (a_exact e))
+    else if negb (contains_stamp eff te) && negb (t_e eff =? te) then Err EDisc
+    else dloop (TR ds te) eff te rest (AP (dlen d0 - a_hi s) (dlen d0 - a_lo s)) 0 (a_exact s).
+Proof.
+  intros Hw HP Hin Hlt.
+  destruct (split_d0 P pre rest d0 HP Hw) as [[Hinc _] Hne].
+  assert (Ho : overlaps (d_tr d0) (TR ds te) = true) by (apply overlaps_inside; assumption).
+  unfold distance, distance_gen, di_seek_first, di_open. simpl di_b. simpl t_s.
+  rewrite (seek_ge_inside P pre d0 rest (TR ds te) zero_dom ds (proj1 Hw) HP Hin Ho).
+  simpl negb. cbv iota.
+  pose proof (fwd_eff_start P (DI (TR ds te) (zlen pre) d0 true)) as [Hs Hb].
+  destruct (fwd_eff P (DI (TR ds te) (zlen pre) d0 true)) as [[it1 eff] n]. simpl in Hs, Hb.
+  exists eff. split; [exact Hs|].
+  rewrite Hb. simpl t_s.
+  rewrite (di_seek_ge_ok_indep P (DI (TR ds te) 0 zero_dom false) it1 ds _ (eq_sym Hb)
+             (seek_ge_inside P pre d0 rest (TR ds te) zero_dom ds (proj1 Hw) HP Hin Ho)).
+  simpl negb. cbv iota. rewrite andb_true_r.
+  destruct (negb (contains_range eff (TR ds te))); [reflexivity|].
+  unfold tspan. simpl t_e. simpl t_s.
+  destruct (te - ds =? 0) eqn:E0; [apply Z.eqb_eq in E0; lia|].
+  simpl di_cur. rewrite (isearch_spec ds _ Hinc). simpl rbind.
+  unfold di_tr. simpl di_cur. unfold dom_e.
+  destruct (contains_stamp (d_tr d0) te || (te =? t_e (d_tr d0))).
+  - rewrite (isearch_spec te _ Hinc). reflexivity.
+  - simpl andb.
+    destruct (negb (contains_stamp eff te) && negb (t_e eff =? te)); [reflexivity|].
+    rewrite HP. rewrite (dist_loop_eq (TR ds te) eff _ _ rest pre d0); [reflexivity|].
+    rewrite app_length. simpl. lia.
+Qed.
+
+Local Transparent dist_loop.
+
+(* the global statement: the stamps of the whole index, in order *)
+Theorem distance_ok P ds te a :
+  widx P -> ds < te -> distance P (TR ds te) true = Ok a ->
+  let k := cnt_lt te (allst P) - cnt_lt ds (allst P) in
+  da_hi a = k + (if da_se a then 0 else 1) /\
+  da_lo a = k - (if da_ee a then 0 else 1) /\
+  da_se a = zmem ds (allst P) /\
+  exists i d0, znth P i = Some d0 /\ dom_s d0 <= ds < dom_e d0.
+Proof.
+  intros Hw Hlt Hd.
+  (* the start lies inside some domain, otherwise Distance fails *)
+  destruct (usearch P (point ds)) as [j ex] eqn:Eu.
+  pose proof (usearch_point P ds (proj1 Hw)) as Hu. rewrite Eu in Hu.
+  destruct ex.
+  2:{ exfalso. simpl in Hu. destruct Hu as (Hj & Hbefore & Hafter).
+      unfold distance, distance_gen, di_seek_first, di_open in Hd. simpl di_b in Hd. simpl t_s in Hd.
+      destruct (di_seek_ge P (DI (TR ds te) 0 zero_dom false) ds) as [it ok] eqn:Es.
+      destruct ok; simpl in Hd; [|discriminate].
+      assert (Hout : ds < t_s (di_tr it)).
+      { eapply (proj1 (seek_ge_outside _ _ _ _ _ Hw _ Es)). Unshelve.
+        intros i d Hi Hin. destruct (Z_le_gt_dec i j).
+        - pose proof (Hbefore i d Hi ltac:(lia)). lia.
+        - pose proof (Hafter i d Hi ltac:(lia)). lia. }
+      pose proof (fwd_eff_start P it) as [Hs Hb].
+      destruct (fwd_eff P it) as [[it1 eff] n]. simpl in Hs, Hb.
+      pose proof (seek_ge_result_bounds _ _ _ _ _ Es) as Hbit. simpl in Hbit.
+      assert (Hs2 : di_seek_ge P it1 (t_s (di_b it1)) = (it, true)).
+      { rewrite Hb, Hbit. simpl t_s.
+        eapply di_seek_ge_ok_indep; [|exact Es]. simpl. rewrite Hb, Hbit. reflexivity. }
+      rewrite Hs2 in Hd. simpl in Hd.
+      assert (Hc : contains_range eff (TR ds te) = false).
+      { unfold contains_range. simpl. apply andb_false_iff. left. apply Z.leb_gt. lia. }
+      rewrite Hc in Hd. simpl in Hd. discriminate. }
+  simpl in Hu. destruct Hu as (d0 & Hd0 & Hin).
+  destruct (widx_find P j d0 Hd0) as (pre & rest & HP & Hlen).
+  destruct (distance_unfold P pre d0 rest ds te Hw HP Hin Hlt) as (eff & Heff & Heq).
+  rewrite Heq in Hd. clear Heq.
+  destruct (negb (contains_range eff (TR ds te))); [discriminate|]. cbv zeta in Hd.
+  destruct (split_d0 P pre rest d0 HP Hw) as [_ Hne].
+  assert (Hcs : cnt_lt ds (allst P) = zlen (allst pre) + cnt_lt ds (d_data d0))
+    by (apply (cntG_in P pre rest d0 HP Hw); lia).
+  assert (Hms : zmem ds (allst P) = zmem ds (d_data d0)) by (apply (zmemG_in P pre rest d0 HP Hw); lia).
+  cut (da_hi a = cnt_lt te (allst P) - cnt_lt ds (allst P) + (if da_se a then 0 else 1) /\
+       da_lo a = cnt_lt te (allst P) - cnt_lt ds (allst P) - (if da_ee a then 0 else 1) /\
+       da_se a = zmem ds (allst P)).
+  { intros (A & B & C). cbv zeta. repeat split; auto. exists j, d0. auto. }
+  rewrite Hms, Hcs.
+  destruct (contains_stamp (d_tr d0) te || (te =? dom_e d0)) eqn:Ec.
+  - assert (Hce : cnt_lt te (allst P) = zlen (allst pre) + cnt_lt te (d_data d0)).
+    { apply (cntG_in P pre rest d0 HP Hw). apply orb_true_iff in Ec as [Ec|Ec].
+      - unfold contains_stamp in Ec. apply andb_true_iff in Ec as [_ Ec]. apply Z.ltb_lt in Ec.
+        unfold dom_e. lia.
+      - apply Z.eqb_eq in Ec. lia. }
+    rewrite Hce. inversion Hd; subst a; simpl.
+    rewrite !a_exact_result, !isearch_result_hi, !isearch_result_lo.
+    destruct (zmem ds (d_data d0)), (zmem te (d_data d0)); repeat split; lia.
+  - destruct (negb (contains_stamp eff te) && negb (t_e eff =? te)); [discriminate|].
+    destruct (dloop_ok ds te eff _ _ Hlt rest 0 a (split_rest_widx P pre rest d0 HP Hw) Hd) as (A & B & C).
+    assert (Hgt : dom_e d0 < te).
+    { apply orb_false_iff in Ec as [Ec1 Ec2]. apply Z.eqb_neq in Ec2. unfold contains_stamp in Ec1.
+      apply andb_false_iff in Ec1. unfold dom_s, dom_e in *.
+      destruct Ec1 as [Ec1|Ec1]; [apply Z.leb_gt in Ec1; lia|apply Z.ltb_ge in Ec1; lia]. }
+    assert (Hce : cnt_lt te (allst P) = zlen (allst pre) + dlen d0 + cnt_lt te (allst rest)).
+    { rewrite (cntG_from P pre rest d0 HP Hw te ltac:(lia)), cnt_lt_app.
+      rewrite (cnt_lt_all te (d_data d0)).
+      - unfold dlen, zlen. lia.
+      - intros y Hy. pose proof (split_d0_stamps P pre rest d0 HP Hw y Hy). lia. }
+    rewrite Hce. simpl in A, B. rewrite isearch_result_lo in A. rewrite isearch_result_hi in B.
+    rewrite C, a_exact_result in *.
+    destruct (zmem ds (d_data d0)); repeat split; lia.
+Qed.
+
+(* an empty range: whatever happens, a successful Distance reports zero, inexact *)
+Lemma distance_zero_ok P ds a : distance P (TR ds ds) true = Ok a -> a = da_zero.
+Proof.
+  unfold distance, distance_gen.
+  destruct (di_seek_first P (di_open (TR ds ds))) as [it ok]. destruct (negb ok); [discriminate|].
+  destruct (fwd_eff P it) as [[it1 eff] n].
+  destruct (di_seek_first P it1) as [it2 ok2]. destruct (negb ok2); [intros [= <-]; reflexivity|].
+  destruct (negb (contains_range eff (TR ds ds)) && true); [discriminate|].
+  unfold tspan. simpl. rewrite Z.sub_diag. simpl. intros [= <-]. reflexivity.
+Qed.
+
+(* ------------------------------------------------------------------ Stamp *)
+Lemma allst_znth_d0 P pre rest d0 k u :
+  P = pre ++ d0 :: rest -> znth (d_data d0) k = Some u ->
+  znth (allst P) (zlen (allst pre) + k) = Some u.
+Proof.
+  intros HP Hk. pose proof (znth_Some _ _ _ Hk).
+  rewrite (allst_split P pre rest d0 HP).
+  rewrite znth_app_r by lia. replace (zlen (allst pre) + k - zlen (allst pre)) with k by lia.
+  rewrite znth_app_l by lia. exact Hk.
+Qed.
+
+Lemma allst_znth_rest P pre rest d0 k u :
+  P = pre ++ d0 :: rest -> 0 <= k -> znth (allst rest) k = Some u ->
+  znth (allst P) (zlen (allst pre) + dlen d0 + k) = Some u.
+Proof.
+  intros HP Hk0 Hk.
+  rewrite (allst_split P pre rest d0 HP).
+  rewrite znth_app_r by (unfold dlen; lia).
+  rewrite znth_app_r by (unfold dlen, zlen; lia).
+  rewrite <- Hk. f_equal. unfold dlen, zlen. lia.
+Qed.
+
+(* the seek of zeroStamp / forwardStamp: a successful seek whose bounds start at ref and
+   whose first domain does not start after ref lands on the domain containing ref *)
+Lemma seek_first_inside P b ref it :
+  widx P -> t_s b = ref -> ref < t_e b ->
+  di_seek_first P (di_open b) = (it, true) -> t_s (di_tr it) <= ref ->
+  exists pre d0 rest, P = pre ++ d0 :: rest /\ dom_s d0 <= ref < dom_e d0 /\
+                      it = DI b (zlen pre) d0 true.
+Proof.
+  intros Hw Hs Hlt Hseek Hle.
+  unfold di_seek_first, di_open in Hseek. simpl di_b in Hseek. rewrite Hs in Hseek.
+  destruct (usearch P (point ref)) as [j ex] eqn:Eu.
+  pose proof (usearch_point P ref (proj1 Hw)) as Hu. rewrite Eu in Hu.
+  destruct ex; simpl in Hu.
+  - destruct Hu as (d0 & Hd0 & Hin).
+    destruct (widx_find P j d0 Hd0) as (pre & rest & HP & Hlen).
+    exists pre, d0, rest. split; [exact HP|]. split; [exact Hin|].
+    destruct (split_d0 P pre rest d0 HP Hw) as [_ Hne].
+    assert (Ho : overlaps (d_tr d0) b = true).
+    { destruct b as [bs be]. simpl in *. subst bs. apply overlaps_inside; unfold dom_s, dom_e in *; lia. }
+    rewrite (seek_ge_inside P pre d0 rest b zero_dom ref (proj1 Hw) HP Hin Ho) in Hseek.
+    inversion Hseek. reflexivity.
+  - exfalso. destruct Hu as (Hj & Hbefore & Hafter).
+    assert (Hno : forall i d, znth P i = Some d -> ~ (dom_s d <= ref < dom_e d)).
+    { intros i d Hi Hin. destruct (Z_le_gt_dec i j).
+      - pose proof (Hbefore i d Hi ltac:(lia)). lia.
+      - pose proof (Hafter i d Hi ltac:(lia)). lia. }
+    destruct (seek_ge_outside P b zero_dom ref it Hw Hno Hseek) as (Hout & _). lia.
+Qed.
+
+Lemma wrap64_small z : - 9223372036854775808 <= z < 9223372036854775808 -> wrap64 z = z.
+Proof. intros H. unfold wrap64. rewrite Z.mod_small by lia. lia. Qed.
+
+Theorem zero_stamp_ok P ref st :
+  widx P -> 0 <= ref < MAXTS -> zero_stamp P ref = Ok st ->
+  znth (allst P) (cnt_lt ref (allst P)) = Some (s_hi st) /\
+  (zmem ref (allst P) = true -> s_lo st = s_hi st).
+Proof.
+  intros Hw Href. unfold zero_stamp. unfold MAXTS in Href.
+  rewrite wrap64_small by lia.
+  destruct (di_seek_first P (di_open (TR ref (ref + 1)))) as [it ok] eqn:Es.
+  destruct ok; simpl; [|discriminate].
+  (* the seeked domain overlaps [ref, ref+1), hence contains ref *)
+  assert (Hle : t_s (di_tr it) <= ref).
+  { destruct (Z_le_gt_dec (t_s (di_tr it)) ref) as [H|H]; [exact H|exfalso].
+    unfold di_seek_first, di_open in Es. simpl di_b in Es. simpl t_s in Es.
+    assert (Hno : forall i d, znth P i = Some d -> ~ (dom_s d <= ref < dom_e d)).
+    { intros i d Hi Hin.
+      destruct (widx_find P i d Hi) as (pre & rest & HP & _).
+      destruct (split_d0 P pre rest d HP Hw) as [_ Hne].
+      assert (Ho : overlaps (d_tr d) (TR ref (ref + 1)) = true)
+        by (apply overlaps_inside; unfold dom_s, dom_e in *; lia).
+      rewrite (seek_ge_inside P pre d rest _ zero_dom ref (proj1 Hw) HP Hin Ho) in Es.
+      inversion Es; subst it. unfold di_tr in H. simpl in H. unfold dom_s in Hin. lia. }
+    destruct (seek_ge_outside P _ zero_dom ref it Hw Hno Es) as (Hout & Ho & (i & Hi)).
+    destruct (widx_find P i _ Hi) as (pre & rest & HP & _).
+    destruct (split_d0 P pre rest _ HP Hw) as [_ Hne].
+    unfold di_tr in *. rewrite overlaps_nonempty in Ho by (simpl; unfold dom_s, dom_e in *; lia).
+    simpl in Ho. apply Z.ltb_lt in Ho. lia. }
+  destruct (seek_first_inside P (TR ref (ref + 1)) ref it Hw eq_refl ltac:(simpl; lia) Es Hle)
+    as (pre & d0 & rest & HP & Hin & ->).
+  simpl di_cur.
+  destruct (split_d0 P pre rest d0 HP Hw) as [[Hinc _] Hne].
+  rewrite (isearch_spec ref _ Hinc).
+  rewrite a_exact_result, isearch_result_hi.
+  assert (Hc : cnt_lt ref (allst P) = zlen (allst pre) + cnt_lt ref (d_data d0))
+    by (apply (cntG_in P pre rest d0 HP Hw); lia).
+  assert (Hm : zmem ref (allst P) = zmem ref (d_data d0)) by (apply (zmemG_in P pre rest d0 HP Hw); lia).
+  rewrite Hc, Hm. unfold rd.
+  destruct (znth (d_data d0) (cnt_lt ref (d_data d0))) as [u|] eqn:Eu;
+    [|destruct (negb (zmem ref (d_data d0))); discriminate].
+  pose proof (allst_znth_d0 P pre rest d0 _ u HP Eu) as Hg.
+  destruct (zmem ref (d_data d0)); simpl; intros [= <-]; simpl; (split; [exact Hg|]); auto; discriminate.
+Qed.
+
+(* the forward traversal of forwardStamp as a recursion over the following domains *)
+Fixpoint floop (B : tr) (rest : list dom) (endoff tot : Z) : res (dom * Z) :=
+  match rest with
+  | [] => Err EDisc
+  | d :: r =>
+      if negb (overlaps (d_tr d) B) then Err EDisc else
+      let tot' := tot + dlen d in
+      if endoff <? tot' then Ok (d, endoff - tot) else floop B r endoff tot'
+  end.
+
+Definition fproj (r : res (diter * Z + sapprox)) : res (dom * Z) :=
+  match r with
+  | Ok (inl (it, e)) => Ok (di_cur it, e)
+  | Ok (inr _) => Err EPanic
+  | Err e => Err e
+  end.
+
+Lemma fstamp_loop_eq B endoff : forall rest pre cur fuel tot,
+  (length rest < fuel)%nat ->
+  fproj (fstamp_loop fuel (pre ++ cur :: rest) (DI B (zlen pre) cur true) true endoff tot) =
+  floop B rest endoff tot.
+Proof.
+  induction rest as [|d1 r IH]; intros pre cur fuel tot Hf; (destruct fuel as [|f]; [lia|]); simpl.
+  - rewrite (di_next_last (pre ++ [cur]) pre cur B eq_refl). reflexivity.
+  - rewrite (di_next_some (pre ++ cur :: d1 :: r) pre cur d1 r B eq_refl).
+    destruct (overlaps (d_tr d1) B); simpl; [|reflexivity].
+    destruct (endoff <? tot + dlen d1); simpl; [f_equal; f_equal; lia|].
+    rewrite (app_cons_assoc pre cur (d1 :: r)), <- (zlen_snoc pre cur).
+    apply IH. simpl in Hf. lia.
+Qed.
+
+Lemma fstamp_loop_no_inr P endoff : forall fuel it tot sa,
+  fstamp_loop fuel P it true endoff tot <> Ok (inr sa).
+Proof.
+  induction fuel as [|f IH]; intros it tot sa; simpl; [discriminate|].
+  destruct (di_next P it) as [it' ok]. destruct (negb ok); [discriminate|].
+  destruct (endoff <? tot + dlen (di_cur it')); [discriminate|apply IH].
+Qed.
+
+Lemma floop_ok B : forall rest endoff tot d e u,
+  floop B rest endoff tot = Ok (d, e) -> tot <= endoff ->
+  znth (d_data d) e = Some u -> znth (allst rest) (endoff - tot) = Some u.
+Proof.
+  induction rest as [|d1 r IH]; intros endoff tot d e u; simpl; [discriminate|].
+  destruct (negb (overlaps (d_tr d1) B)); [discriminate|].
+  rewrite allst_cons.
+  destruct (endoff <? tot + dlen d1) eqn:E.
+  - apply Z.ltb_lt in E. intros [= <- <-] Hle Hu.
+    rewrite znth_app_l by (unfold dlen, zlen in *; lia). exact Hu.
+  - apply Z.ltb_ge in E. intros Hf Hle Hu.
+    rewrite znth_app_r by (unfold dlen, zlen in *; lia).
+    replace (endoff - tot - zlen (d_data d1)) with (endoff - (tot + dlen d1)) by (unfold dlen, zlen; lia).
+    eapply IH; eauto.
+Qed.
+
+Lemma approximate_stamp_ok P it upper lower st :
+  approximate_stamp P it upper lower = Ok st ->
+  znth (d_data (di_cur it)) upper = Some (s_hi st) /\ (lower = upper -> s_lo st = s_hi st).
+Proof.
+  unfold approximate_stamp, rd, rbind.
+  destruct (znth (d_data (di_cur it)) upper) as [u|] eqn:Eu; cbv beta iota; [|discriminate].
+  destruct (0 <=? lower) eqn:El.
+  - destruct (znth (d_data (di_cur it)) lower) as [l|] eqn:Elo; cbv beta iota; [|discriminate].
+    intros [= <-]. simpl. split; [reflexivity|]. intros ->. congruence.
+  - apply Z.leb_gt in El. destruct (di_prev P it) as [it' ok]. destruct (negb ok); [discriminate|].
+    destruct (znth (d_data (di_cur it')) _); cbv beta iota; [|discriminate]. intros [= <-]. simpl. split; [reflexivity|].
+    intros ->. pose proof (znth_Some _ _ _ Eu). lia.
+Qed.
+
+Lemma span_range_max ref : 0 <= ref < MAXTS ->
+  t_s (span_range ref MAXTS) = ref /\ ref < t_e (span_range ref MAXTS).
+Proof.
+  intros H. destruct (span_range_fwd ref MAXTS ltac:(unfold MAXTS; lia) ltac:(lia)) as (A & B & C).
+  split; [exact A|]. unfold span_range in *.
+  unfold add_clamp, MAXTS, MINI64 in *.
+  destruct ((0 <? 9223372036854775807) && (9223372036854775807 - 9223372036854775807 <? ref)) eqn:E.
+  - rewrite make_valid_valid by (simpl; lia). simpl. lia.
+  - simpl in E. apply Z.ltb_ge in E. assert (ref = 0) by lia. subst. vm_compute. reflexivity.
+Qed.
+
+Local Opaque fstamp_loop.
+Theorem forward_stamp_ok P ref off st :
+  widx P -> 0 <= ref < MAXTS -> 0 < off -> forward_stamp P ref off true = Ok st ->
+  znth (allst P) (cnt_lt ref (allst P) + off) = Some (s_hi st) /\
+  (zmem ref (allst P) = true -> s_lo st = s_hi st).
+Proof.
+  intros Hw Href Hoff. unfold forward_stamp.
+  destruct (span_range_max ref Href) as [HBs HBe]. set (B := span_range ref MAXTS) in *.
+  destruct (di_seek_first P (di_open B)) as [it ok] eqn:Es.
+  destruct ok; simpl; [|discriminate].
+  pose proof (fwd_eff_start P it) as [Hs Hb].
+  destruct (fwd_eff P it) as [[it1 effb] efflen]. simpl in Hs, Hb.
+  destruct (contains_stamp effb ref) eqn:Ecs; simpl; [|discriminate].
+  destruct (efflen <=? off); [discriminate|].
+  assert (Hle : t_s (di_tr it) <= ref).
+  { unfold contains_stamp in Ecs. apply andb_true_iff in Ecs as [Ecs _]. apply Z.leb_le in Ecs. lia. }
+  destruct (seek_first_inside P B ref it Hw HBs HBe Es Hle) as (pre & d0 & rest & HP & Hin & ->).
+  (* the second seek repeats the first *)
+  assert (Hs2 : di_seek_first P it1 = (DI B (zlen pre) d0 true, true)).
+  { unfold di_seek_first in *. simpl in Hb. rewrite Hb.
+    eapply di_seek_ge_ok_indep; [|exact Es]. simpl. symmetry. exact Hb. }
+  rewrite Hs2. simpl di_cur.
+  destruct (split_d0 P pre rest d0 HP Hw) as [[Hinc _] Hne].
+  rewrite (isearch_spec ref _ Hinc). simpl rbind.
+  rewrite a_exact_result, isearch_result_hi.
+  destruct (_ && _ || _ && _); [discriminate|].
+  assert (Hc : cnt_lt ref (allst P) = zlen (allst pre) + cnt_lt ref (d_data d0))
+    by (apply (cntG_in P pre rest d0 HP Hw); lia).
+  assert (Hm : zmem ref (allst P) = zmem ref (d_data d0)) by (apply (zmemG_in P pre rest d0 HP Hw); lia).
+  rewrite Hc, Hm.
+  assert (Hspan : zmem ref (d_data d0) = true -> a_span (isearch_result ref (d_data d0)) = 0).
+  { intros Hz. unfold isearch_result, a_span. rewrite Hz. simpl. lia. }
+  set (c0 := cnt_lt ref (d_data d0)) in *.
+  destruct (dlen d0 <=? c0 + off) eqn:En.
+  - apply Z.leb_le in En.
+    pose proof (fstamp_loop_eq B (c0 + off) rest pre d0 (S (length P)) (dlen d0)) as Hl.
+    rewrite <- HP in Hl. specialize (Hl ltac:(rewrite HP, app_length; simpl; lia)).
+    destruct (fstamp_loop (S (length P)) P (DI B (zlen pre) d0 true) true (c0 + off) (dlen d0))
+      as [[[it' e']|sa]|er] eqn:Efl; simpl in Hl; simpl rbind; try discriminate.
+    2:{ exfalso. eapply fstamp_loop_no_inr; eauto. }
+    intros Ha. destruct (approximate_stamp_ok P it' e' _ st Ha) as [Hu Hlo].
+    symmetry in Hl. pose proof (floop_ok B rest (c0 + off) (dlen d0) _ e' _ Hl En Hu) as Hr.
+    split.
+    + replace (zlen (allst pre) + c0 + off) with (zlen (allst pre) + dlen d0 + (c0 + off - dlen d0)) by lia.
+      eapply allst_znth_rest; eauto. lia.
+    + intros Hz. apply Hlo. rewrite (Hspan Hz). lia.
+  - simpl rbind. intros Ha. destruct (approximate_stamp_ok P _ _ _ st Ha) as [Hu Hlo]. simpl in Hu.
+    split.
+    + replace (zlen (allst pre) + c0 + off) with (zlen (allst pre) + (c0 + off)) by lia.
+      eapply allst_znth_d0; eauto.
+    + intros Hz. apply Hlo. rewrite (Hspan Hz). lia.
+Qed.
+
+Local Transparent fstamp_loop.
+
+(* index.Domain.Stamp with a non-negative offset, continuous policy *)
+Theorem stamp_ok P ref off st :
+  widx P -> 0 <= ref < MAXTS -> 0 <= off -> stamp P ref off true = Ok st ->
+  znth (allst P) (cnt_lt ref (allst P) + off) = Some (s_hi st) /\
+  (zmem ref (allst P) = true -> s_lo st = s_hi st).
+Proof.
+  intros Hw Href Hoff. unfold stamp.
+  destruct (off =? 0) eqn:E0.
+  - apply Z.eqb_eq in E0. subst. rewrite Z.add_0_r. apply zero_stamp_ok; assumption.
+  - apply Z.eqb_neq in E0. destruct (off <? 0) eqn:E1; [apply Z.ltb_lt in E1; lia|].
+    apply forward_stamp_ok; try assumption. lia.
 Qed.
